@@ -17,7 +17,7 @@ import time
 
 VERIF = os.path.dirname(os.path.dirname(os.path.abspath(__file__)))
 REPO = os.environ.get("ERBIUM_REPO", "/repo")
-WORK = os.path.join(VERIF, ".work")
+WORK = os.environ.get("VERIF_WORK_DIR") or os.path.join(VERIF, ".work")     # (developer tools may give parallel workers a work dir each)
 DRIVER_SRC = os.path.join(VERIF, "driver")
 DRIVER_BIN = os.path.join(WORK, "driver-target", "release", "erbium-facts")
 
